@@ -187,8 +187,12 @@ package secec
 //@   fresh result0
 //@
 //@ func (*PublicKey).Equal
-//@   props C10 C07
-//@   inline
+//@   props C10 C07 C08
+//@   split dyn x PublicKey
+//@   ensures isdyn(x, PublicKey) ==> (result <==> abs(k.point) == abs(x.(*PublicKey).point))
+//@   ensures !isdyn(x, PublicKey) ==> !result
+//@   using aff_oncurve(abs(k.point))
+//@   using aff_oncurve(abs(x.(*PublicKey).point))
 //@
 //@ func (*PublicKey).Verify
 //@   props C07
@@ -197,7 +201,7 @@ package secec
 //@   ensures isnil(opts) ==> (result <==> (dersig(sig) && len(digest) >= 32 && ecdsa_ok(fn(os2ip(digest[0:32])), fn(dersig_r(sig)), fn(dersig_s(sig)), abs(k.point))))
 //@   ensures (!isnil(opts) && opts.Encoding == 0) ==> (result <==> (len(digest) == hashsize(opts.Hash) && dersig(sig) && (!opts.RejectMalleable || dersig_s(sig) <= HALFN) && len(digest) >= 32 && ecdsa_ok(fn(os2ip(digest[0:32])), fn(dersig_r(sig)), fn(dersig_s(sig)), abs(k.point))))
 //@   ensures (!isnil(opts) && opts.Encoding == 1) ==> (result <==> (len(digest) == hashsize(opts.Hash) && len(sig) == 64 && os2ip(sig[0:32]) >= 1 && os2ip(sig[0:32]) < N && os2ip(sig[32:64]) >= 1 && os2ip(sig[32:64]) < N && (!opts.RejectMalleable || os2ip(sig[32:64]) <= HALFN) && len(digest) >= 32 && ecdsa_ok(fn(os2ip(digest[0:32])), fn(os2ip(sig[0:32])), fn(os2ip(sig[32:64])), abs(k.point))))
-//@   ensures (!isnil(opts) && opts.Encoding == 2) ==> (result <==> (len(digest) == hashsize(opts.Hash) && len(sig) == 65 && os2ip(sig[0:32]) >= 1 && os2ip(sig[0:32]) < N && os2ip(sig[32:64]) >= 1 && os2ip(sig[32:64]) < N && (!opts.RejectMalleable || os2ip(sig[32:64]) <= HALFN) && len(digest) >= 32 && sig[64] < 4 && recx(fn(os2ip(sig[0:32])), sig[64]) < P && issq(pow(atom(fp(recx(fn(os2ip(sig[0:32])), sig[64]))), 3) + 7) && ecdsa_recQ(fn(os2ip(digest[0:32])), fn(os2ip(sig[0:32])), fn(os2ip(sig[32:64])), ptxy(atom(fp(recx(fn(os2ip(sig[0:32])), sig[64]))), sig[64] % 2)) != O && lift(affx(ecdsa_recQ(fn(os2ip(digest[0:32])), fn(os2ip(sig[0:32])), fn(os2ip(sig[32:64])), ptxy(atom(fp(recx(fn(os2ip(sig[0:32])), sig[64]))), sig[64] % 2)))) == lift(affx(abs(k.point))) && lift(affy(ecdsa_recQ(fn(os2ip(digest[0:32])), fn(os2ip(sig[0:32])), fn(os2ip(sig[32:64])), ptxy(atom(fp(recx(fn(os2ip(sig[0:32])), sig[64]))), sig[64] % 2)))) == lift(affy(abs(k.point)))))
+//@   ensures (!isnil(opts) && opts.Encoding == 2) ==> (result <==> (len(digest) == hashsize(opts.Hash) && len(sig) == 65 && os2ip(sig[0:32]) >= 1 && os2ip(sig[0:32]) < N && os2ip(sig[32:64]) >= 1 && os2ip(sig[32:64]) < N && (!opts.RejectMalleable || os2ip(sig[32:64]) <= HALFN) && len(digest) >= 32 && sig[64] < 4 && recx(fn(os2ip(sig[0:32])), sig[64]) < P && issq(pow(atom(fp(recx(fn(os2ip(sig[0:32])), sig[64]))), 3) + 7) && ecdsa_recQ(fn(os2ip(digest[0:32])), fn(os2ip(sig[0:32])), fn(os2ip(sig[32:64])), ptxy(atom(fp(recx(fn(os2ip(sig[0:32])), sig[64]))), sig[64] % 2)) != O && ecdsa_recQ(fn(os2ip(digest[0:32])), fn(os2ip(sig[0:32])), fn(os2ip(sig[32:64])), ptxy(atom(fp(recx(fn(os2ip(sig[0:32])), sig[64]))), sig[64] % 2)) == abs(k.point)))
 //@   ensures (!isnil(opts) && opts.Encoding != 0 && opts.Encoding != 1 && opts.Encoding != 2) ==> !result
 //@
 //@ func sampleRandomScalar
@@ -275,5 +279,33 @@ package secec
 //@   ensures (isdyn(opts, ECDSAOptions) && len(digest) != hashsize(opts.(*ECDSAOptions).Hash)) ==> result1 != nil
 //@   ensures (!isnil(opts) && !isdyn(opts, ECDSAOptions) && len(digest) != hashsize(old(foreign(opts, HashFunc)))) ==> result1 != nil
 //@   ensures len(digest) < 32 ==> result1 != nil
-//@   ensures result1 != nil ==> len(result0) == 0
+//@   ensures result1 != nil ==> result0 == nil
 //@   ensures !errIs(result1, errSigCheckFailed)
+//@   fresh result0
+//@
+//@ func verifLemmaSignRawVerifies
+//@   props C08
+//@   reach signed@r: true
+//@   ensures result
+//@
+//@ func verifLemmaSignRawRecovers
+//@   props C08
+//@   reach recovered@q: true
+//@   ensures result
+//@
+//@ func verifLemmaSignVerifies
+//@   props C08
+//@   split nil opts
+//@   requires !isnil(opts) ==> (opts.Hash >= 0 && opts.Hash <= 19)
+//@   reach signed@sig#2: len(sig) > 0
+//@   ensures result
+//@
+//@ func verifLemmaCompactRoundTrip
+//@   props C08 C12
+//@   requires val(r) != 0 && val(s) != 0
+//@   ensures result
+//@
+//@ func verifLemmaASN1RoundTrip
+//@   props C08 C12
+//@   requires val(r) != 0 && val(s) != 0
+//@   ensures result
